@@ -1,7 +1,9 @@
+use crate::common::manager::info::GetManagerInfo;
+use crate::server::autoalloc::{AllocationId, QueueId};
 use crate::server::event::journal::{JournalReader, JournalWriter};
 use crate::server::event::payload::EventPayload;
 use tako::JobId;
-use tako::{Set, WorkerId};
+use tako::{Map, Set, WorkerId};
 
 pub(crate) fn prune_journal(
     reader: &mut JournalReader,
@@ -79,4 +81,41 @@ pub(crate) fn find_newest_ids(
         }
     }
     Ok((newest_job_id, newest_worker_id))
+}
+
+/// Returns the workers whose records define the known worker resources of the allocation queues.
+///
+/// A restarted server takes the resources of the workers of an allocation queue from the last
+/// worker that has connected from an allocation of the queue (see `StateRestorer`). The records
+/// of such a worker therefore have to survive pruning even if the worker is no longer live,
+/// otherwise the queue would forget the resources of its workers after a restart.
+pub(crate) fn find_queue_resource_workers(
+    reader: &mut JournalReader,
+) -> crate::Result<Set<WorkerId>> {
+    let mut allocation_to_queue_id: Map<AllocationId, QueueId> = Map::new();
+    let mut queue_to_worker_id: Map<QueueId, WorkerId> = Map::new();
+    for event in reader {
+        match event?.payload {
+            EventPayload::AllocationQueued {
+                allocation_id,
+                queue_id,
+                ..
+            } => {
+                allocation_to_queue_id.insert(allocation_id, queue_id);
+            }
+            EventPayload::AllocationQueueRemoved(queue_id) => {
+                allocation_to_queue_id.retain(|_, id| *id != queue_id);
+                queue_to_worker_id.remove(&queue_id);
+            }
+            EventPayload::WorkerConnected(worker_id, config) => {
+                if let Some(info) = config.get_manager_info()
+                    && let Some(queue_id) = allocation_to_queue_id.get(&info.allocation_id)
+                {
+                    queue_to_worker_id.insert(*queue_id, worker_id);
+                }
+            }
+            _ => {}
+        }
+    }
+    Ok(queue_to_worker_id.values().copied().collect())
 }
